@@ -43,8 +43,13 @@ use std::{
     fmt::Display,
     hash::Hash,
     ops::Deref,
-    sync::{Arc, Mutex, MutexGuard, Weak},
+    sync::{Arc, Weak},
 };
+
+#[cfg(not(gdsl_verif))]
+use std::sync::{Mutex, MutexGuard};
+#[cfg(gdsl_verif)]
+use crate::verif_hook::{Mutex, MutexGuard};
 
 #[cfg(not(gdsl_verif))]
 use std::sync::RwLock;
